@@ -103,6 +103,27 @@ variable [DecidableEq F]
 def bySet {α β : Type} (cm : List (CommitmentData α β)) (f : CommitmentData α β → γ) (i : Nat) : List γ :=
   (cm.filter (fun d => d.setIndex = i)).map f
 
+/-- The body of `multi_open` after the grouping: `groups[i]` = the points of set `i` and the
+polynomials opened at exactly these points (in commitment-map order). `none` = a panic. -/
+def openGroups (nMax : Nat) (groups : List (List F × List (List F))) (x1 x2 x3 x4 : F) :
+    Option (ProverOut F) :=
+  match groups.mapM (fun g => innerProduct g.2 x1) with
+  | none => none
+  | some qPolys =>
+    let fPolys := (groups.zip qPolys).map (fun gq => resize (kateFold gq.2 gq.1.1) nMax)
+    match innerProduct fPolys x2 with
+    | none => none
+    | some fPoly =>
+      let qEvals := qPolys.map (fun q => evalPoly q x3)
+      match innerProduct (qPolys ++ [fPoly]) x4 with
+      | none => none
+      | some finalPoly =>
+        let v := evalPoly finalPoly x3
+        match finalPoly with
+        | [] => none            -- `res.values[0] -= rhs`
+        | c0 :: rest =>
+          some { qPolys, fPoly, qEvals, finalPoly, v, piPoly := kateDivision ((c0 - v) :: rest) x3 }
+
 /-- `kzg/mod.rs: multi_open`. Commitments of the prover queries are indices into `polys`
 (`PolynomialPointer`: identity of the reference); `nMax = 1 << params.max_k()`. -/
 def multiOpen (nMax : Nat) (polys : List (List F)) (queries : List (Query Nat F F))
@@ -110,24 +131,10 @@ def multiOpen (nMax : Nat) (polys : List (List F)) (queries : List (Query Nat F 
   match constructIntermediateSets (0 : F) queries with
   | none => .error .dup
   | some (cm, pointSets) =>
-    let nsets := pointSets.length
-    let qPolysOpt := (List.range nsets).mapM (fun i => innerProduct (bySet cm (fun d => polys.getD d.com []) i) x1)
-    match qPolysOpt with
+    let groups := pointSets.zipIdx.map (fun pi => (pi.1, bySet cm (fun d => polys.getD d.com []) pi.2))
+    match openGroups nMax groups x1 x2 x3 x4 with
     | none => .error .panic
-    | some qPolys =>
-      let fPolys := (pointSets.zip qPolys).map (fun pq => resize (kateFold pq.2 pq.1) nMax)
-      match innerProduct fPolys x2 with
-      | none => .error .panic
-      | some fPoly =>
-        let qEvals := qPolys.map (fun q => evalPoly q x3)
-        match innerProduct (qPolys ++ [fPoly]) x4 with
-        | none => .error .panic
-        | some finalPoly =>
-          let v := evalPoly finalPoly x3
-          match finalPoly with
-          | [] => .error .panic            -- `res.values[0] -= rhs`
-          | c0 :: rest =>
-            .ok { qPolys, fPoly, qEvals, finalPoly, v, piPoly := kateDivision ((c0 - v) :: rest) x3 }
+    | some out => .ok out
 
 /-- `KZGCommitmentScheme::commit` with `g = [sⁱ]G`, on discrete logarithms: `p ↦ p(s)`. -/
 def commitLog (s : F) (p : List F) : F := evalPoly p s
@@ -212,13 +219,53 @@ structure DualMSM (F : Type) where
   left : List (F × Base)
   right : List (F × Base)
 
+/-- The body of `multi_prepare` after the grouping: `groups[i]` = the points of set `i` and, for
+every commitment opened at exactly these points, its MSM terms and its evaluations (in the order
+of the points). -/
+def prepareGroups (inv : F → F) (groups : List (List F × List (List (F × Base) × List F)))
+    (proof : ProofView F) (x1 x2 x3 x4 : F) : Except VerifierErr (DualMSM F) :=
+  let nsets := groups.length
+  let nb := (groups.map (fun g => g.2.length)).foldl max 0
+  let powersX1 := powersN x1 nb 1
+  let qComs := groups.map (fun g => msmInnerProduct (g.2.map (·.1)) powersX1)
+  match groups.mapM (fun g => evalsInnerProduct (g.2.map (·.2)) powersX1) with
+  | none => .error .panic
+  | some qEvalSets =>
+    if ¬ proof.hasF then .error .sampling else
+    if proof.qEvals.length < nsets then .error .sampling else
+    let qEvalsOnX3 := proof.qEvals.take nsets
+    -- f_eval, folded from the last set to the first (`foldr` visits the last set first, as
+    -- `.rev().fold(..)` does)
+    let stepOpt := ((groups.zip qEvalSets).zip qEvalsOnX3).foldr
+      (fun (pe : ((List F × List (List (F × Base) × List F)) × List F) × F) (acc : Option F) =>
+        match acc with
+        | none => none
+        | some accEval =>
+          match lagrangeInterpolate inv pe.1.1.1 pe.1.2 with
+          | none => none
+          | some rPoly =>
+            let rEval := evalPoly rPoly x3
+            let den := pe.1.1.1.foldl (fun a p => a * (x3 - p)) 1
+            if den = 0 then none else
+            some (accEval * x2 + (pe.2 - rEval) * inv den))
+      (some 0)
+    match stepOpt with
+    | none => .error .panic
+    | some fEval =>
+      let size := nsets + 1
+      let finalCom := msmInnerProduct (qComs ++ [[((1 : F), Base.f)]]) (powersN x4 size 1)
+      match innerProductScalars (qEvalsOnX3 ++ [fEval]) x4 with
+      | none => .error .panic
+      | some v =>
+        if ¬ proof.hasPi then .error .sampling else
+        .ok { left := [((1 : F), Base.pi)], right := finalCom ++ [(x3, Base.pi), (v, Base.negG)] }
+
 /-- `kzg/mod.rs: multi_prepare`. `debugAssertions` = whether `debug_assert!` is compiled in. -/
 def multiPrepare (inv : F → F) (debugAssertions : Bool) (queries : List (Query ComRef F F))
     (proof : ProofView F) (x1 x2 x3 x4 : F) : Except VerifierErr (DualMSM F) :=
   match constructIntermediateSets (0 : F) queries with
   | none => .error .dup
   | some (cm, pointSets) =>
-    let nsets := pointSets.length
     -- the MSM of every commitment
     let msmsOpt := cm.mapM (fun d =>
       match d.com with
@@ -231,42 +278,8 @@ def multiPrepare (inv : F → F) (debugAssertions : Bool) (queries : List (Query
     match msmsOpt with
     | none => .error .panic
     | some msms =>
-      let qComs := (List.range nsets).map (fun i => (msms.filter (fun t => t.1 = i)).map (fun t => t.2.1))
-      let qEvalSets := (List.range nsets).map (fun i => (msms.filter (fun t => t.1 = i)).map (fun t => t.2.2))
-      let nb := (qComs.map List.length).foldl max 0
-      let powersX1 := powersN x1 nb 1
-      let qComs := qComs.map (fun m => msmInnerProduct m powersX1)
-      match qEvalSets.mapM (fun e => evalsInnerProduct e powersX1) with
-      | none => .error .panic
-      | some qEvalSets =>
-        if ¬ proof.hasF then .error .sampling else
-        if proof.qEvals.length < nsets then .error .sampling else
-        let qEvalsOnX3 := proof.qEvals.take nsets
-        -- f_eval, folded from the last set to the first
-        let stepOpt := ((pointSets.zip qEvalSets).zip qEvalsOnX3).foldr
-          (fun (pe : (List F × List F) × F) (acc : Option F) =>
-            match acc with
-            | none => none
-            | some accEval =>
-              match lagrangeInterpolate inv pe.1.1 pe.1.2 with
-              | none => none
-              | some rPoly =>
-                let rEval := evalPoly rPoly x3
-                let den := pe.1.1.foldl (fun a p => a * (x3 - p)) 1
-                if den = 0 then none else
-                some (accEval * x2 + (pe.2 - rEval) * inv den))
-          (some 0)
-        -- (`foldr` visits the last set first, as `.rev().fold(..)` does)
-        match stepOpt with
-        | none => .error .panic
-        | some fEval =>
-          let size := nsets + 1
-          let finalCom := msmInnerProduct (qComs ++ [[((1 : F), Base.f)]]) (powersN x4 size 1)
-          match innerProductScalars (qEvalsOnX3 ++ [fEval]) x4 with
-          | none => .error .panic
-          | some v =>
-            if ¬ proof.hasPi then .error .sampling else
-            .ok { left := [((1 : F), Base.pi)], right := finalCom ++ [(x3, Base.pi), (v, Base.negG)] }
+      let groups := pointSets.zipIdx.map (fun pi => (pi.1, (msms.filter (fun t => t.1 = pi.2)).map (fun t => t.2)))
+      prepareGroups inv groups proof x1 x2 x3 x4
 
 /-- Value of an MSM on discrete logarithms. -/
 def msmLog (dlog : Base → F) (m : List (F × Base)) : F :=
